@@ -197,3 +197,136 @@ Definition rt_class (doc_ir : option (outcome ir)) (node : ParseAst.cnode) (p_na
 (* the statements of a class body that are not attributes: what parse.class_ stores in `_internal` *)
 Definition class_extras (stmts : list stmt) : list stmt :=
   filter (fun s => negb (ParseAst.is_assignment s)) stmts.
+
+(* ---- class: classifier and guard ---- *)
+(* class -> IR -> class cannot keep a non-attribute statement of the class body in place: parse.class_ stores
+   every statement that is not an AnnAssign / Assign (methods - also an existing __call__ -, nested classes,
+   anything else) in `_internal`, and emit.class_ puts that list inside ONE generated __call__ (emit_call) or
+   drops it (no emit_call).  So the class is hit exactly when there is something to carry; the emit_call flag
+   only decides between nested and dropped. *)
+Definition rt_class_class_name : str := L "class-method-rehomed-or-dropped".
+
+Definition finding_class_rt_class (cls : stmt) (emit_call : bool) : option str :=
+  match cls with
+  | SClass _ _ cbody _ =>
+    match class_extras (body_stmts cbody) with
+    | [] => None
+    | _ :: _ => Some rt_class_class_name
+    end
+  | _ => None
+  end.
+
+Definition guard_rt_class (cls : stmt) (emit_call : bool) : bool :=
+  match cls with
+  | SClass _ _ _ _ => is_none (finding_class_rt_class cls emit_call)
+  | _ => false
+  end.
+
+(* ================================================================== wire *)
+Definition rt_opt_bind {A B} (x : option A) (f : A -> option B) : option B :=
+  match x with Some a => f a | None => None end.
+Local Notation "'let?' x := e1 'in' e2" := (rt_opt_bind e1 (fun x => e2)) (at level 200, x pattern, e1 at level 100, e2 at level 200).
+
+Definition enc_rt_result (r : outcome (stmt * ir)) : sexp :=
+  enc_outcome enc_stmt (do x <- r; Ok (fst x)).
+
+(* FAMILY: run_c16rt *)
+Definition run_c16rt (fn : sexp) (args : list sexp) : option sexp :=
+  if is_sym "c16rt_function" fn then
+    (* parse.function's arguments as in run_parsesig.parse_function, then emit.function's as in
+       run_emitast.emitast_function without the IR *)
+    match args with
+    | [pi; pj; d; fd; it; ww; pft; pfn; efn; eft; inlt; kw; tds; pt] =>
+      let? pi := dec_list dec_str pi in let? pj := dec_list dec_str pj in
+      let? d := dec_option dec_ir d in let? fd := dec_stmt fd in
+      let? it := dec_bool it in let? ww := dec_bool ww in
+      let? pft := dec_option dec_str pft in let? pfn := dec_option dec_str pfn in
+      let? efn := dec_option dec_str efn in let? eft := dec_option dec_str eft in
+      let? inlt := dec_bool inlt in let? kw := dec_bool kw in
+      let? tds := dec_tds tds in let? pt := dec_ptable pt in
+      Some (enc_rt_result (rt_function (perm_of_order pi) (perm_of_order pj) d fd it ww pft pfn
+                                       pt efn eft inlt kw tds))
+    | _ => None
+    end
+  else if is_sym "c16rt_function_class" fn then
+    match args with
+    | [pt; d; fd; it; ww] =>
+      let? pt := dec_ptable pt in let? d := dec_option dec_ir d in let? fd := dec_stmt fd in
+      let? it := dec_bool it in let? ww := dec_bool ww in
+      match fd with
+      | SFunc _ _ body _ returns => Some (enc_class (finding_class_rt_function pt d body returns it ww))
+      | _ => None
+      end
+    | _ => None
+    end
+  else if is_sym "c16rt_function_guard" fn then
+    match args with
+    | [pt; d; fd; it; ww; pft; pfn; efn; eft] =>
+      let? pt := dec_ptable pt in let? d := dec_option dec_ir d in let? fd := dec_stmt fd in
+      let? it := dec_bool it in let? ww := dec_bool ww in
+      let? pft := dec_option dec_str pft in let? pfn := dec_option dec_str pfn in
+      let? efn := dec_option dec_str efn in let? eft := dec_option dec_str eft in
+      Some (enc_bool (guard_rt_function pt d fd it ww pft pfn efn eft))
+    | _ => None
+    end
+  else if is_sym "c16rt_argparse" fn then
+    (* parse.argparse_ast's arguments as in run_parseast.parse_argparse_ast, then emit.argparse_function's as in
+       run_emitast.emitast_argparse without the IR *)
+    match args with
+    | [di; fd; pft; pfn; edd; efn; eft; wd; ww; ds; pt] =>
+      let? di := dec_outcome dec_ir di in let? fd := dec_stmt fd in
+      let? pft := dec_option dec_str pft in let? pfn := dec_option dec_str pfn in
+      let? edd := dec_bool edd in
+      let? efn := dec_option dec_str efn in let? eft := dec_option dec_str eft in
+      let? wd := dec_bool wd in let? ww := dec_bool ww in
+      let? ds := dec_outcome dec_str ds in let? pt := dec_ptable pt in
+      Some (enc_rt_result (rt_argparse di fd pft pfn pt edd efn eft wd ww ds))
+    | _ => None
+    end
+  else if is_sym "c16rt_argparse_class" fn then
+    match args with
+    | [fd] =>
+      let? fd := dec_stmt fd in
+      match fd with
+      | SFunc _ _ fbody _ _ => Some (enc_class (finding_class_rt_argparse fbody))
+      | _ => None
+      end
+    | _ => None
+    end
+  else if is_sym "c16rt_argparse_guard" fn then
+    match args with
+    | [fd; pft; pfn; efn; eft] =>
+      let? fd := dec_stmt fd in
+      let? pft := dec_option dec_str pft in let? pfn := dec_option dec_str pfn in
+      let? efn := dec_option dec_str efn in let? eft := dec_option dec_str eft in
+      Some (enc_bool (guard_rt_argparse fd pft pfn efn eft))
+    | _ => None
+    end
+  else if is_sym "c16rt_class" fn then
+    (* parse.class_'s arguments as in run_parseast.parse_class, then emit.class_'s as in run_emitast.emitast_class
+       without the IR *)
+    match args with
+    | [di; node; pn; it; pww; ec; cn; bases; decos; ww; tds; pt] =>
+      let? di := dec_option (dec_outcome dec_ir) di in let? node := ParseAst.dec_cnode node in
+      let? pn := dec_option dec_str pn in let? it := dec_bool it in let? pww := dec_bool pww in
+      let? ec := dec_bool ec in let? cn := dec_str cn in
+      let? bases := dec_list dec_str bases in let? decos := dec_list dec_str decos in
+      let? ww := dec_bool ww in let? tds := dec_tds tds in let? pt := dec_ptable pt in
+      Some (enc_rt_result (rt_class di node pn it pww pt ec cn bases decos ww tds))
+    | _ => None
+    end
+  else if is_sym "c16rt_class_class" fn then
+    match args with
+    | [cls; ec] =>
+      let? cls := dec_stmt cls in let? ec := dec_bool ec in
+      Some (enc_option enc_str (finding_class_rt_class cls ec))
+    | _ => None
+    end
+  else if is_sym "c16rt_class_guard" fn then
+    match args with
+    | [cls; ec] =>
+      let? cls := dec_stmt cls in let? ec := dec_bool ec in
+      Some (enc_bool (guard_rt_class cls ec))
+    | _ => None
+    end
+  else None.
